@@ -7,6 +7,7 @@ package vos
 
 import (
 	"io/fs"
+	"strings"
 	"os"
 	"sync"
 	"sync/atomic"
@@ -170,7 +171,10 @@ func (f *File) ReadAt(b []byte, off int64) (int, error) {
 }
 
 func (f *File) Write(b []byte) (int, error) {
-	point("write")
+	if !strings.HasSuffix(f.path, ".log") {
+		// log lines are not part of any persisted state: no scheduling point for them
+		point("write")
+	}
 	if f.f == os.Stdout || f.f == os.Stderr {
 		return f.f.Write(b)
 	}
